@@ -476,7 +476,112 @@ def check_transpose(case):
     return info
 
 
+@st.composite
+def self_adjoint_cases(draw, tier):
+    """ Rigid diagrams over one wire type that is its own adjoint (PRO(1),
+    qubit): every cap leg can meet either leg of a cup, so that closed loops
+    and traces sit next to genuine snakes. """
+    width = draw(st.integers(0, 2))
+    dom, ops = width, []
+    for k in range(draw(st.integers(1, 6))):
+        kinds = ["box"]
+        if width + 2 <= 5:
+            kinds += ["cap", "cap"]
+        if width >= 2:
+            kinds += ["cup", "cup"]
+        kind = draw(st.sampled_from(kinds))
+        if kind == "cap":
+            ops.append(["cap", draw(st.integers(0, width)), 0, 2])
+            width += 2
+        elif kind == "cup":
+            ops.append(["cup", draw(st.integers(0, width - 2)), 2, 0])
+            width -= 2
+        else:
+            n_in = draw(st.integers(0, min(2, width)))
+            n_out = draw(st.integers(0, 2 if width - n_in + 2 <= 5 else 0))
+            ops.append(["f%d" % k, draw(st.integers(0, width - n_in)), n_in,
+                        n_out])
+            width += n_out - n_in
+    return {"dom": dom, "ops": ops, "left": draw(st.booleans()),
+            "ty": draw(st.sampled_from(["pro", "qubit"]))}
+
+
+def check_self_adjoint(case):
+    import numpy as np
+    from discopy import rigid
+    if case["ty"] == "pro":
+        x = rigid.PRO(1)
+    else:
+        from discopy.quantum.circuit import qubit as x
+    p = ["p", 0]
+    layers, boxes, offsets = [], [], []
+    for name, off, n_in, n_out in case["ops"]:
+        if name == "cap":
+            layers.append([{"k": "cap", "l": p, "r": p}, off])
+            boxes.append(rigid.Cap(x, x))
+        elif name == "cup":
+            layers.append([{"k": "cup", "l": p, "r": p}, off])
+            boxes.append(rigid.Cup(x, x))
+        else:
+            layers.append([{"k": "box", "name": name, "dom": [p] * n_in,
+                            "cod": [p] * n_out, "dag": False}, off])
+            boxes.append(rigid.Box(name, x ** n_in, x ** n_out))
+        offsets.append(off)
+    spec = {"cls": "rigid", "dom": [p] * case["dom"], "layers": layers}
+    cod = specs.spec_cod(spec)
+    d = rigid.Diagram(x ** case["dom"], x ** len(cod), boxes, offsets)
+    specs.well_typed(d, "self-adjoint diagram")
+    interp = common.arrays_of(default_interp(spec, {"p": 2}, len(layers)))
+    dims, arrays = interp
+
+    def spec_of(step):
+        out = []
+        for bx, off in zip(step.boxes, step.offsets):
+            if is_cap(bx):
+                out.append([{"k": "cap", "l": p, "r": p}, off])
+            elif is_cup(bx):
+                out.append([{"k": "cup", "l": p, "r": p}, off])
+            else:
+                out.append([{"k": "box", "name": bx.name, "dom": [p] * len(
+                    bx.dom), "cod": [p] * len(bx.cod), "dag": False}, off])
+        return dict(spec, layers=out)
+    ref = specs.ref_eval(spec, dims, arrays)
+    conn = specs.connected(case["dom"], arity_list(d))
+    steps, seen = 0, set()
+    try:
+        for steps, step in enumerate(d.normalize(left=case["left"])):
+            key = repr(specs.dkey(step))
+            if key in seen:   # a cycle: only disconnected diagrams may
+                require(not conn, "C07:NotImplementedError-on-connected",
+                        str(d))
+                break
+            seen.add(key)
+            require(steps < 300, "C07:non-termination", str(d))
+            specs.well_typed(step, "normalisation step")
+            require(common.exact_equal(
+                ref, specs.ref_eval(spec_of(step), dims, arrays)),
+                "C07:denotation-changed", lambda: "{} -> {}".format(d, step))
+        nf = d.normal_form(left=case["left"])
+    except NotImplementedError:
+        require(not conn, "C07:NotImplementedError-on-connected", str(d))
+        return dict(nt=False, labels=["NotImplementedError"])
+    specs.well_typed(nf, "normal form")
+    require(common.exact_equal(ref, specs.ref_eval(spec_of(nf), dims,
+                                                   arrays)),
+            "C07:denotation-changed", lambda: "{} -> {}".format(d, nf))
+    loops = sum(1 for (a, _), (b, _) in zip(layers, layers[1:])
+                if a["k"] == "cap" and b["k"] == "cup")
+    return dict(nt=loops > 0 or len(nf) < len(d), labels=[
+        case["ty"], "removed" if len(nf) < len(d) else "kept"],
+        show="{} -> {}".format(common.show(d, 150), common.show(nf, 100)))
+
+
 core.register("C07", [
+    Facet("self_adjoint", self_adjoint_cases, check_self_adjoint,
+          n_quick=1200, shards_quick=4, rule="diagrams of boxes, cups and "
+          "caps over one self-adjoint wire type (PRO(1), qubit): loops and "
+          "traces next to snakes; every step and the normal form keep the "
+          "denotation"),
     Facet("snaky", snaky_cases, check_snaky, n_quick=3200, shards_quick=8,
           rule=RULE),
     Facet("free", free_cases, check_free, n_quick=1600, shards_quick=4,
